@@ -132,7 +132,9 @@ PROPS = {
                 "failed half way / a truncated decode of the same bytes, compared with a fresh receiver and with the model.",
     },
     "C16": {
-        "theorems": [],
+        "theorems": ["FinProto.Obl.C16_readString_copying", "FinProto.Obl.C16_readFixed_copying", "FinProto.Obl.C16_readBasic_copying", "FinProto.Obl.C16_no_unrecognised_statement",
+                     "FinProto.Alias.noalias_return", "FinProto.Alias.decode_immune", "FinProto.Alias.return_observable", "FinProto.Alias.view_aliases",
+                     "FinProto.Alias.encode_immune", "FinProto.Alias.encode_immune_contents"],
         "aspects": {**ENC_ALL},
         "rule": "every type: decode from a harness-owned slice, snapshot, overwrite the whole backing array and reuse the buffer; mutate and "
                 "append to every list/text/nested part of the decoded message and compare the source bytes; encode, mutate the message, "
